@@ -147,6 +147,7 @@ func (t TV) Str() (string, bool) {
 	}
 	return "", false
 }
+
 // List returns the elements of a list value: "l:" (strings) or "L:" (typed values).
 func (t TV) List() ([]string, bool) {
 	switch t.Kind() {
